@@ -2,6 +2,7 @@ package main
 
 import (
 	"fmt"
+	"go/constant"
 	"go/token"
 	"go/types"
 	"regexp"
@@ -898,4 +899,133 @@ func al2type(a *ssa.Alloc) types.Type {
 		return types.Typ[types.Invalid]
 	}
 	return a.Type()
+}
+
+// c08R9: a background load is delivered to the page it was started for. The
+// in-flight flags of ui.Page (its bool fields) are set before a goroutine is
+// started and cleared by it; while a flag is set, the page is the goroutine's to
+// extend. The page whose flag is set, the page whose flag is cleared, the page
+// whose fields and feed the goroutine writes: all of them must be the very same
+// value (the page captured when the load was started), not whatever page is
+// current when the load completes — the user may have moved on in the meantime.
+func c08R9(c *Ctx) {
+	P := c.P
+	pageT := P.NamedType("servitor/ui", "Page")
+	if pageT == nil {
+		c.bad("servitor/ui.Page", "ui", "servitor/ui", "type ui.Page not found")
+		return
+	}
+	isPageField := func(fa *ssa.FieldAddr) bool {
+		o := structOwner(fa)
+		return o != nil && o.Obj() == pageT.Obj()
+	}
+	isFlag := func(fa *ssa.FieldAddr) bool {
+		if !isPageField(fa) {
+			return false
+		}
+		b, ok := fieldOf(fa).Type().Underlying().(*types.Basic)
+		return ok && b.Kind() == types.Bool
+	}
+	boolConst := func(v ssa.Value) (bool, bool) {
+		cst, ok := v.(*ssa.Const)
+		if !ok || cst.Value == nil || cst.Value.Kind() != constant.Bool {
+			return false, false
+		}
+		return constant.BoolVal(cst.Value), true
+	}
+	matchedClears := map[*ssa.Store]bool{}
+	nSets := 0
+	for _, fn := range P.FuncsIn("servitor/ui") {
+		fname := FuncName(fn)
+		eachInstr(fn, func(b *ssa.BasicBlock, idx int, in ssa.Instruction) {
+			st, ok := in.(*ssa.Store)
+			if !ok {
+				return
+			}
+			fa, ok := st.Addr.(*ssa.FieldAddr)
+			if !ok || !isFlag(fa) {
+				return
+			}
+			val, isC := boolConst(st.Val)
+			if !isC || !val {
+				return
+			}
+			nSets++
+			flag := fieldOf(fa)
+			page := unwrapLoad(fa.X)
+			// the goroutines started after the flag was set, in the same block
+			var targets []*ssa.Function
+			for _, later := range b.Instrs[idx+1:] {
+				g, ok := later.(*ssa.Go)
+				if !ok {
+					continue
+				}
+				switch t := g.Call.Value.(type) {
+				case *ssa.MakeClosure:
+					if f, ok := t.Fn.(*ssa.Function); ok {
+						targets = append(targets, f)
+					}
+				case *ssa.Function:
+					targets = append(targets, t)
+				}
+			}
+			if !c.check(len(targets) > 0, fname+"/in-flight:"+flag.Name()+"/started", P.InstrPos(st), fname, "the flag is set right before the goroutine that clears it is started", "the in-flight flag "+flag.Name()+" is set but no goroutine is started after it in the same block: nothing will clear it") {
+				return
+			}
+			for _, g := range targets {
+				gname := FuncName(g)
+				cleared := false
+				eachInstr(g, func(_ *ssa.BasicBlock, _ int, gin ssa.Instruction) {
+					switch x := gin.(type) {
+					case *ssa.Store:
+						gfa, ok := x.Addr.(*ssa.FieldAddr)
+						if !ok || !isPageField(gfa) {
+							return
+						}
+						same := unwrapLoad(gfa.X) == page
+						if fieldOf(gfa) == flag {
+							if v, isC := boolConst(x.Val); isC && !v {
+								cleared = true
+								matchedClears[x] = true
+								c.check(same, gname+"/in-flight:"+flag.Name()+"/cleared-on-own-page", P.InstrPos(x), gname, "clears the flag of the page the load was started for", "the load clears "+flag.Name()+" of another page than the one it was started for (the page that is current when the load completes): the page it was started for keeps its flag forever and never loads again")
+								return
+							}
+						}
+						c.check(same, gname+"/delivers:"+fieldOf(gfa).Name(), P.InstrPos(x), gname, "written on the page the load was started for", "the result of a background load is written to field "+fieldOf(gfa).Name()+" of another page than the one it was started for: if the user has moved on, the items end up on the wrong page")
+					case *ssa.Call:
+						sc := x.Call.StaticCallee()
+						if sc == nil || sc.Pkg == nil || sc.Pkg.Pkg.Path() != "servitor/feed" || (sc.Name() != "Append" && sc.Name() != "Prepend") || len(x.Call.Args) == 0 {
+							return
+						}
+						recv := x.Call.Args[0]
+						same := false
+						if ld, ok := recv.(*ssa.UnOp); ok && ld.Op == token.MUL {
+							if rfa, ok := ld.X.(*ssa.FieldAddr); ok && isPageField(rfa) {
+								same = unwrapLoad(rfa.X) == page
+							}
+						}
+						c.check(same, gname+"/delivers:feed."+sc.Name(), P.InstrPos(x), gname, "extends the feed of the page the load was started for", "the items of a background load are added to the feed of another page than the one the load was started for")
+					}
+				})
+				c.check(cleared, gname+"/in-flight:"+flag.Name()+"/cleared", P.Pos(g.Pos()), gname, "the goroutine clears the flag it was started under", "the goroutine started under the in-flight flag "+flag.Name()+" never clears it: the page stops loading in that direction")
+			}
+		})
+	}
+	// no stray clears
+	for _, fn := range P.FuncsIn("servitor/ui") {
+		eachInstr(fn, func(_ *ssa.BasicBlock, _ int, in ssa.Instruction) {
+			st, ok := in.(*ssa.Store)
+			if !ok || matchedClears[st] {
+				return
+			}
+			fa, ok := st.Addr.(*ssa.FieldAddr)
+			if !ok || !isFlag(fa) {
+				return
+			}
+			if v, isC := boolConst(st.Val); isC && !v {
+				c.bad(FuncName(fn)+"/in-flight:"+fieldOf(fa).Name()+"/stray-clear", P.InstrPos(st), FuncName(fn), "an in-flight flag is cleared outside the goroutine that was started under it")
+			}
+		})
+	}
+	c.info("in_flight_flags_set", nSets)
 }
